@@ -57,6 +57,8 @@ def run(pid, tier):
                 continue
             key = (tuple(sorted(map(tuple, r["calls"]))), r["shared"])
             has_model = any(c[1].startswith("m_") for c in r["calls"])
+            if any(c[0].endswith("_recycled") for c in r["calls"]):
+                continue        # the recycled message is one value of the harness: sequential histories only
             if key in seen or (not r["shared"] and not has_model):
                 continue
             seen.add(key)
@@ -80,7 +82,7 @@ def run(pid, tier):
         dump = sc.path("pool_dump.json")
         open(dump, "w").write(run_harness(binary, ["purity-run", "-mode", "dump"]).strip().split("\n")[-1])
         cc_traces = []
-        for op in sorted({p[0] for p in pairs}):
+        for op in sorted({p[0] for p in pairs if not p[0].endswith("_recycled")}):
             for rep in range(2 if tier == "quick" else 6):
                 cr = subprocess.run([race, "purity-run", "-mode", "coldconc", "-op", op, "-models", dump], env=env, stdout=subprocess.PIPE, stderr=subprocess.PIPE, text=True, timeout=600)
                 if cr.returncode != 0:
@@ -165,7 +167,7 @@ def run(pid, tier):
         log("executed %d histories (warm process) and %d scenarios (-race, barrier start); TLC validated %d recorded executions (%d states)%s" % (
             len(histories), len(scenarios), len(vtraces), tv.distinct, "" if not tv.violated else ": " + ", ".join(tv.violated)))
         chk.cov.update(evaluations=chk.cov.get("calls_compared", 0), distinct_nontrivial=len(histories) + len(scenarios),
-                       rule="histories = all sequences of <= %d compatible (operation, object) calls over 21 operations (every validator on its own) and 16 pooled objects (thorough: length 3 sampled at 15%%); scenarios = all unordered "
+                       rule="histories = all sequences of <= %d compatible (operation, object) calls over 24 operations (every validator on its own; builders and printer also on ONE re-used message value) and 18 pooled objects (two models of different content under one id) (thorough: length 3 sampled at 15%%); scenarios = all unordered "
                             "pairs of calls, on a shared model or private clones, repeated from a start barrier under the race detector; every call result compared with a cold subprocess; distinct = "
                             "distinct histories + scenarios, non-trivial = all (single calls are the cold runs)" % maxlen,
                        states=hist.distinct + scen.distinct + tv.distinct, transitions=hist.generated + scen.generated + tv.generated,
